@@ -19,6 +19,7 @@ package multiplex
 //   q...                                     state dump
 
 import (
+	crand "crypto/rand"
 	"errors"
 	"fmt"
 	"io"
@@ -581,8 +582,45 @@ func muxRunScenario(line string) string {
 	return id + " " + strings.Join(out, " ")
 }
 
+// muxRand replaces crypto/rand.Reader for the whole driver run: deterministic, and single-byte reads
+// (the pad-length byte of closing notices) walk through the boundary values 0xFF, 0x00, ... so that
+// every close path that depends on the drawn byte is taken in every run, not once in 256 closes.
+type muxRand struct {
+	mu    sync.Mutex
+	state uint64
+	ones  uint64
+}
+
+func (r *muxRand) next() uint64 {
+	r.state ^= r.state << 13
+	r.state ^= r.state >> 7
+	r.state ^= r.state << 17
+	return r.state
+}
+
+func (r *muxRand) Read(p []byte) (int, error) {
+	r.mu.Lock()
+	defer r.mu.Unlock()
+	if len(p) == 1 {
+		edge := [...]byte{0xFF, 0x00, 0x80, 0xFE, 0x01}
+		i := r.ones
+		r.ones++
+		if i%8 < uint64(len(edge)) {
+			p[0] = edge[i%8]
+		} else {
+			p[0] = byte(r.next() >> 24)
+		}
+		return 1, nil
+	}
+	for i := range p {
+		p[i] = byte(r.next() >> 24)
+	}
+	return len(p), nil
+}
+
 func TestVerifMux(t *testing.T) {
 	sc, w, done := vfIO(t)
+	crand.Reader = &muxRand{state: 0x9E3779B97F4A7C15}
 	synctest.Run(func() {
 		for sc.Scan() {
 			line := strings.TrimSpace(sc.Text())
